@@ -28,6 +28,10 @@ def run(ctx):
             for _ in range(3):
                 md, t = M.mutate(d, ctx.rng)
                 docs.append(md); tags.append("mutant:" + t.split(":")[0])
+            for _ in range(2):
+                ov = G.overlap_variant(m, ctx.rng)
+                if ov is not None:
+                    docs.append(G.spell(ov[0], ctx.rng, level=ctx.rng.choice([0, 0.5]))); tags.append("overlap_variant")
         reps = model_resolve(ctx, docs)
         graphs, gdocs = [], []
         for d, t, rep in zip(docs, tags, reps):
